@@ -1535,7 +1535,7 @@ fn write_evidence(
         "coverage": {
             "evaluations": agg.runs,
             "distinct_nontrivial": agg.nontrivial.len(),
-            "rule": "one evaluation = one simulated execution of a generated history (real parser+linter+code generator+VM over simulated stdin/stdout/LPT1/file system/environment/screen) under one fault plan, checked online by the reference model and the VM monitor. Scenarios come from a seeded DSL generator (swarm feature mask per scenario); for each scenario the fault-free run is taken first, every I/O operation it performs inside a simple statement becomes a fault site, and site x fault kind placements are enumerated (sampled down to max_single_faults when more), plus seeded multi-fault / transient plans. distinct = distinct digest of the full event log (every seam call with result, statement starts, error dispatches) + final device and store contents; non-trivial = at least one injected fault fired or at least one run-time error was dispatched in the run.",
+            "rule": "one evaluation = one simulated execution of a generated history (real parser+linter+code generator+VM over simulated stdin/stdout/LPT1/file system/environment/screen) under one fault plan, checked online by the reference model and the VM monitor. Scenarios come from a seeded DSL generator (swarm feature mask per scenario); for each scenario the fault-free run is taken first, every I/O operation it performs inside a simple statement becomes a fault site, and site x fault kind placements are enumerated (sampled down to max_single_faults when more), plus a disk quota, crash points (the run killed at an arbitrary instruction, the store frozen as it is, the remaining programs of the history run over it), a device that fails for good from its n-th operation on, and seeded multi-fault / transient / short-write-then-error plans. A watchdog reports runs in which one VM instruction never ends. distinct = distinct digest of the full event log (every seam call with result, statement starts, error dispatches) + final device and store contents; non-trivial = at least one injected fault fired or at least one run-time error was dispatched in the run.",
             "samples": agg.samples,
             "scenarios": agg.scenarios,
             "scenarios_completed_before_wall_limit": completed,
